@@ -80,7 +80,7 @@ func (c *Criteria) countWithPrefix(prefix string) int {
 }
 
 func (c *Criteria) SortByWeights(weights Weights) *WeightedCriteria {
-	result := make(WeightedCriteria, len(weights))
+	result := make(WeightedCriteria, len(*c))
 	for i, criterion := range *c {
 		result[i] = WeightedCriterion{
 			Criterion: criterion,
